@@ -111,8 +111,15 @@ Proof.
   intros c1 _. cbv beta. go.
 Qed.
 
+Lemma consume_decl_loop_shE : forall fuel s,
+  rsimE shs (consume_decl_loop text fuel s) (consume_decl_loop text2 fuel (shs s)).
+Proof.
+  induction fuel as [|fu IH]; intros s; cbn [consume_decl_loop]; [reflexivity|].
+  cbv zeta. repeat re ltac:(first [apply IH]).
+Qed.
+
 Lemma consume_decl_shE s : rsimE shs (consume_decl text s) (consume_decl text2 (shs s)).
-Proof. unfold consume_decl. cbv zeta. go. Qed.
+Proof. unfold consume_decl. sync. apply consume_decl_loop_shE. Qed.
 
 Lemma parse_doctype_start_shE s :
   rsimE shs (parse_doctype_start text s) (parse_doctype_start text2 (shs s)).
@@ -134,7 +141,7 @@ Proof.
   { go. }
   destruct (_ || _).
   { pose proof (consume_decl_shE (skip_spaces s)) as H.
-    destruct (consume_decl text (skip_spaces s)); cbn in H.
+    destruct (consume_decl text (skip_spaces s)); cbn -[consume_decl] in H.
     - rewrite H. apply IH.
     - destruct H as [e' [-> _]]. base.
     - rewrite H. reflexivity.
